@@ -36,6 +36,34 @@ func (ts *TypeSpec) props() []string {
 	return out
 }
 
+// guardLoc resolves the mutex field `mu` of an object of struct type t (possibly promoted from an
+// embedded struct) to the ghost lock array name and the reference of the struct that contains it.
+func (x *Exec) guardLoc(st *State, t types.Type, ref Term, mu string) (string, Term) {
+	obj, index, _ := types.LookupFieldOrMethod(types.NewPointer(t), true, nil, mu)
+	if obj == nil {
+		for _, pp := range x.prog.Pkgs {
+			if obj, index, _ = types.LookupFieldOrMethod(types.NewPointer(t), true, pp.Types, mu); obj != nil {
+				break
+			}
+		}
+	}
+	if obj == nil || len(index) == 0 {
+		return typeName(t) + "." + mu, ref
+	}
+	cur := t
+	r := ref
+	for j, fi := range index {
+		sstruct := types.Unalias(cur).Underlying().(*types.Struct)
+		f := sstruct.Field(fi)
+		if j == len(index)-1 {
+			return typeName(cur) + "." + f.Name(), r
+		}
+		r = st.subRef(cur, f, r)
+		cur = f.Type()
+	}
+	return typeName(t) + "." + mu, ref
+}
+
 func (x *Exec) heldTerm(st *State, arr string, owner Term, write bool) Term {
 	w := Select(st.hget("L."+arr+".w", SArr(SRef, SBool)), owner)
 	if write {
@@ -60,7 +88,7 @@ func (x *Exec) raceCheck(fr *Frame, st *State, in ssa.Instruction, p Val, write 
 		return
 	}
 	if mu, ok := ts.GuardedBy[fname]; ok {
-		arr := typeName(p.ST) + "." + mu
+		arr, owner := x.guardLoc(st, p.ST, p.T, mu)
 		kind := "race-read"
 		if write {
 			kind = "race-write"
@@ -70,7 +98,7 @@ func (x *Exec) raceCheck(fr *Frame, st *State, in ssa.Instruction, p Val, write 
 			label = x.instrText(fr, in)
 		}
 		o := x.newObl(fr.fn, kind, typeName(p.ST)+"."+fname+" @ "+label, ts.props(), x.posStr(in.Pos()))
-		st.check(o, x.heldTerm(st, arr, p.T, write))
+		st.check(o, x.heldTerm(st, arr, owner, write))
 		return
 	}
 	if ts.Immutable[fname] && write {
@@ -96,7 +124,8 @@ func (x *Exec) noteGuard(st *State, p Val, v Val) {
 		if st.guards == nil {
 			st.guards = map[string]guardInfo{}
 		}
-		st.guards[v.T.S] = guardInfo{arr: typeName(p.ST) + "." + mu, owner: p.T, field: typeName(p.ST) + "." + p.FV.Name()}
+		arr, owner := x.guardLoc(st, p.ST, p.T, mu)
+		st.guards[v.T.S] = guardInfo{arr: arr, owner: owner, field: typeName(p.ST) + "." + p.FV.Name()}
 	}
 }
 
